@@ -109,6 +109,10 @@ def step (line : String) : String :=
     match parseFilterVal f, parseParmsVal p, parseInflate i, bytesOfHex h with
     | some f, some p, some tab, some d => showRes (streamDecode (lookupInflate tab) f p d)
     | _, _, _, _ => "bad-op"
+  | ["chainraw", f, p, i, h] =>
+    match parseFilterVal f, parseParmsVal p, parseInflate i, bytesOfHex h with
+    | some f, some p, some tab, some d => showRes (streamDecodeRaw (lookupInflate tab) f p d)
+    | _, _, _, _ => "bad-op"
   | ["stream", pos, len, h] =>
     match pos.toNat?, len.toNat?, bytesOfHex h with
     | some pos, some len, some d => showRes (streamPayload d pos len)
